@@ -197,6 +197,41 @@ def e2e_items(tier):
     return [(seqs[i:i + 60], n_trees) for i in range(0, len(seqs), 60)]
 
 
+def large_chunk(item):
+    """Consensus over many larger trees (8 data points, deep and wide shapes, relabelled copies)."""
+    lo, hi = item
+    from mc.checks.c02 import large_forests, forest_state
+
+    n = 8
+    data = oracle.make_data(n, grid=2, outlier_prob=0.2)
+    for d in data:
+        d.name = "m%d" % d.idx
+    states = []
+    for par in [p_ for p_ in large_forests() if len(p_) == 8] + [tuple([-1] + [0] * 3 + [1] * 2 + [4] * 2), tuple([-1, 0, 0, 1, 1, 2, 2, -1])]:
+        base, _ = forest_state(par, [1] * 8)
+        for a in (1, 3, 5):
+            for r_ in (0, 2, 5):
+                perm = {i: (a * i + r_) % n for i in range(n)}
+                st = frozenset((frozenset(perm[i] for i in b), (frozenset(perm[i] for i in p_) if p_ is not None else None)) for b, p_ in base[0])
+                states.append((st, frozenset()))
+    trees = [oracle.build(s_, data) for s_ in states]
+    clades = [oracle.clades_of(s_) for s_ in states]
+    res = {"n": 0, "skipped": 0, "problems": []}
+    T = len(states)
+    for k in range(lo, hi):
+        size = 3 + (k % 13)
+        combo = tuple(sorted(((k * 7 + j * (1 + k % 5)) % T) for j in range(size)))
+        for th in THRESHOLDS:
+            r = judge(data, trees, clades, combo, None, th, n)
+            if r == "skip":
+                res["skipped"] += 1
+                continue
+            res["n"] += 1
+            if r is not None and len(res["problems"]) < 3:
+                res["problems"].append({"what": r, "combo": list(combo), "weights": None, "threshold": th, "trees": [oracle.fmt_state(states[i]) for i in combo[:3]]})
+    return {"item": (8, False, "counts-large", hi - lo), **res}
+
+
 def orbit_representatives(n, states, size):
     """One multiset per orbit under relabelling of the data points."""
     perms = list(itertools.permutations(range(n)))
@@ -276,6 +311,13 @@ def main(tier, seed):
             empties = pr["what"].startswith("clades")
             chk.violation({"sub": "consensus", "n": r["item"][0], "mode": r["item"][2], "n_trees": len(pr["combo"]), "what": pr["what"].split(":")[0][:30] if not empties else "clade set differs"},
                           pr, {"n": r["item"][0], "outliers": r["item"][1], "combo": pr["combo"], "weights": pr["weights"], "threshold": pr["threshold"]})
+    for r in pool_imap(large_chunk, [(i, i + 25) for i in range(0, 400 if tier == "quick" else 4000, 25)], chunksize=1):
+        chk.transitions += r["n"]
+        chk.traces_validated += r["n"]
+        chk.n_nontrivial_extra += r["n"]
+        chk.bump("large_consensus_cases", r["n"])
+        for pr in r["problems"]:
+            chk.violation({"sub": "consensus-large", "what": pr["what"].split(":")[0][:30]}, pr, {"large": pr["combo"], "threshold": pr["threshold"]})
     # end to end through the trace file and the consensus command (topology dictionary, weights, table writer)
     e2e = 0
     for r in pool_imap(e2e_chunk, e2e_items(tier), chunksize=1):
